@@ -5,11 +5,12 @@ import (
 )
 
 type c18Op struct {
-	kind int // 0 insert 1 update 2 delete 3 reset 4 snapshot-start 5 snapshot-end 6 change for an unregistered type
-	typ  int // 0 entA, 1 entB
-	key  string
-	val  int
-	tag  string // optional field of entA (omitted from the message when empty)
+	kind    int // 0 insert 1 update 2 delete 3 reset 4 snapshot-start 5 snapshot-end 6 change for an unregistered type
+	typ     int // 0 entA, 1 entB
+	key     string
+	val     int
+	tag     string // optional field of entA (omitted from the message when empty)
+	sameOld bool   // update built by UpdateWithOldValue with old == new
 }
 
 func c18Publish(bus *eventbus.EventBus, o c18Op) {
@@ -33,7 +34,10 @@ func c18Build(o c18Op) (*ChangeMessage, *ControlMessage) {
 			msg, err = Insert(o.key, entB{V: o.val})
 		}
 	case 1:
-		if o.typ == 0 {
+		if o.typ == 0 && o.sameOld {
+			// an update that carries an old value equal to the new one is an update all the same
+			msg, err = UpdateWithOldValue(o.key, entA{V: o.val, Tag: o.tag}, entA{V: o.val, Tag: o.tag})
+		} else if o.typ == 0 {
 			msg, err = Update(o.key, entA{V: o.val, Tag: o.tag})
 		} else {
 			msg, err = Update(o.key, entB{V: o.val})
@@ -159,6 +163,9 @@ func c18Fold(M int, focused bool) {
 			if o.kind <= 2 {
 				o.key = []string{"k1", "a/b"}[vPick(2)]
 				o.val = vInt(-9, 9)
+			}
+			if o.kind == 1 {
+				o.sameOld = vBool()
 			}
 			ops[i] = o
 			continue
